@@ -402,6 +402,26 @@ func c05Enum(ctx *ev.Ctx, fn func(C05Case)) string {
 		}
 		rec(nil, false)
 	}
+	// messages of one MiB and more (the Message Length field has 24 bits): between two short
+	// messages, uncut, cut around the MiB marks, and through 4093-byte reads
+	for _, total := range []int{1<<20 - 4, 1 << 20, 1<<20 + 32, 1<<20 + 64, 1<<20 + 4096, 2 << 20, 3<<20 + 1044, 8 << 20, 1<<24 - 4} {
+		big := total - 20
+		for _, buffered := range []bool{false, true} {
+			base := C05Case{Sizes: []int{8, big, 1024}, Buffered: buffered, Trunc: -1, BadLen: -1}
+			emit(base)
+			c := base
+			c.Unit = 4093
+			emit(c)
+			c = base
+			c.Cuts = []int{28 + 10, 28 + 1<<20}
+			emit(c)
+			c.Empty = true
+			emit(c)
+			c = base
+			c.Trunc = 28 + total - 1
+			emit(c)
+		}
+	}
 	// declared length 0..19 as the very first header
 	for l := 0; l < 20; l++ {
 		for _, buffered := range []bool{false, true} {
@@ -527,7 +547,7 @@ func c05Enum(ctx *ev.Ctx, fn func(C05Case)) string {
 			}
 		}
 	}
-	return "all sequences of <=3 messages over body sizes {0,8,1016,1024,1028,4100,70000}; read through a scripted io.Reader and through bufio.NewReader on top of it; all cut vectors with <=2 (thorough 3) cuts - every offset for streams <=200 bytes, otherwise every offset within +-3 (thorough: +-24 for single messages) of a message border, header/body border, 1 KiB and 4 KiB boundary (quick: three large messages or more than 120 candidate offsets: <=1 cut; thorough: 3 cuts where the candidate set has <=70 offsets and no 70 000-byte message is involved, otherwise 2, and 1 for three messages including the 70 000-byte one); uniform 1..40-byte readers; truncation at every such offset (plain, 7-byte reads, and with one earlier cut for short streams); a header declaring each length 0..19 followed by 40 more bytes after every sequence of <=2 messages and as the first header. and messages whose last AVP declares 1..2000 bytes more than the (truthful) message holds, between two other messages: rejected, following message still read at its offset.; every message of the uncut cases also read from a source of its own overlapping with a read from another source after an oversize message; the base and single-cut cases also with a source that returns io.EOF together with the last bytes; the base, single-cut and two-cut cases also with a source that answers one Read with (0, nil) before the first byte and at every cut; sequences of <=3 messages with bodies from {9, 29, 1017, 1023, 8, 1024} containing at least one whose declared length is not a multiple of four (last AVP sent unpadded); all histories of <=3 reads over bodies {8,600,1016,2036,5000} with diam.MessageBufferLength set to one of {1024,4096,512} before each read. Distinct by (sizes, cuts, unit, bufio, truncation, bad length, overstatement, EOF mode, empty reads, buffer lengths)."
+	return "all sequences of <=3 messages over body sizes {0,8,1016,1024,1028,4100,70000}; a message of 1 MiB - 4, 1 MiB, 1 MiB + 32 / 64 / 4096, 2 MiB, 3 MiB + 1044, 8 MiB and 16 MiB - 4 bytes between two short ones (uncut, 4093-byte reads, cut inside its header and at the MiB mark, truncated one byte early); read through a scripted io.Reader and through bufio.NewReader on top of it; all cut vectors with <=2 (thorough 3) cuts - every offset for streams <=200 bytes, otherwise every offset within +-3 (thorough: +-24 for single messages) of a message border, header/body border, 1 KiB and 4 KiB boundary (quick: three large messages or more than 120 candidate offsets: <=1 cut; thorough: 3 cuts where the candidate set has <=70 offsets and no 70 000-byte message is involved, otherwise 2, and 1 for three messages including the 70 000-byte one); uniform 1..40-byte readers; truncation at every such offset (plain, 7-byte reads, and with one earlier cut for short streams); a header declaring each length 0..19 followed by 40 more bytes after every sequence of <=2 messages and as the first header. and messages whose last AVP declares 1..2000 bytes more than the (truthful) message holds, between two other messages: rejected, following message still read at its offset.; every message of the uncut cases also read from a source of its own overlapping with a read from another source after an oversize message; the base and single-cut cases also with a source that returns io.EOF together with the last bytes; the base, single-cut and two-cut cases also with a source that answers one Read with (0, nil) before the first byte and at every cut; sequences of <=3 messages with bodies from {9, 29, 1017, 1023, 8, 1024} containing at least one whose declared length is not a multiple of four (last AVP sent unpadded); all histories of <=3 reads over bodies {8,600,1016,2036,5000} with diam.MessageBufferLength set to one of {1024,4096,512} before each read. Distinct by (sizes, cuts, unit, bufio, truncation, bad length, overstatement, EOF mode, empty reads, buffer lengths)."
 }
 
 func runC05(ctx *ev.Ctx) {
